@@ -370,6 +370,38 @@ theorem lru_call_transparent {χ κ ν : Type} [DecidableEq κ] (f : χ → ν) 
     · cases heq; exact sound x y hy.symm
     · exact h k v' hm' y hy
 
+/-! ## T4' — key-soundness of the curve key (the hypothesis of T4, for every cache keyed on a curve) -/
+
+/-- all seven components of a curve's identity (p, a, b, G.x, G.y, n, cofactor) are in the tuple
+    `Curve._eq_key` returns in the current source, and `__eq__` / `__hash__` go through that tuple. -/
+theorem curve_key_lists_every_component :
+    (∀ f ∈ allFields, f ∈ Gen.Lifecycle.curveEqKey) ∧ Gen.Lifecycle.curveEqIsKeyEq = true ∧
+    Gen.Lifecycle.curveHashIsKeyHash = true ∧ Gen.Lifecycle.servesComparesCurve = true := by
+  decide
+
+/-- **The curve key is injective on the identity record.**  Two curves that compare equal (hence
+    share `lru_cache` entries and the backend's verdict) are the same curve in every component. -/
+theorem curve_key_injective (c1 c2 : CurveId) (h : curveKey c1 = curveKey c2) : c1 = c2 :=
+  eqKey_injective _ curve_key_lists_every_component.1 c1 c2 h
+
+/-- hence any function of (argument, curve) memoised on (argument, curve key) under any eviction
+    policy answers the function itself: key-soundness is discharged, not assumed, for curve keys. -/
+theorem memo_transparent_on_curve_keys {χ ν : Type} [DecidableEq χ] (f : χ × CurveId → ν)
+    (ops : List (MemoOp (χ × CurveId) (χ × List Int) ν)) :
+    (Memo.run f (fun x => (x.1, curveKey x.2)) ops []).1 = Memo.reference f ops := by
+  refine (memo_transparent f _ ?_ ops [] (by intro k v hm; cases hm)).1
+  intro x y hxy
+  obtain ⟨x1, x2⟩ := x
+  obtain ⟨y1, y2⟩ := y
+  simp only [Prod.mk.injEq] at hxy
+  rw [hxy.1, curve_key_injective x2 y2 hxy.2]
+
+/-- and the bindings serve a curve only if it *is* secp256k1, in every component. -/
+theorem serves_only_secp256k1 (secp ec : CurveId) (flag : Bool) (h : servesCurve secp flag ec = true) :
+    ec = secp := by
+  simp only [servesCurve, Bool.and_eq_true, decide_eq_true_eq] at h
+  exact curve_key_injective ec secp h.2
+
 /-! ## T5 — the backend flag's history does not show -/
 
 /-- **Backend independence.**  If both arms compute the same function `M` (that is C04), then for
@@ -421,6 +453,8 @@ example : (Nonce.run [.sign { demoArgs with ctxOk := false }, .sign demoArgs] de
 -- a live signer signs, a wiped one does not
 example : (Signer.run dsaCode [.sign true, .enter, .sign true, .exit, .sign true] (Signer.init dsaCode true)).1 =
     [.sig, .self_, .sig, .none_, .err .value] := by decide
+-- secp256k1 and the curve generated by −G (toy numbers): different keys
+example : curveKey ⟨23, 0, 7, 1, 10, 29, 1⟩ ≠ curveKey ⟨23, 0, 7, 1, 13, 29, 1⟩ := by decide
 -- a wallet: address(0,5), address(0,2), next(0) → index 6; a bad branch changes nothing
 def demoSrc : Source Nat := ⟨[0, 1], fun b i => if i < 100 then some (b.toNat * 1000 + i + 1) else none, fun a => a == 0⟩
 example : (Wallet.run demoSrc [.address 0 5, .address 0 2, .next 0, .address 7 0, .next 1, .len] Wallet.empty).1 =
